@@ -585,11 +585,31 @@ func (m *Multiplexer) Addr() net.Addr {
 // context must not be nil. The context only regulates the lifetime of the open
 // operation, not the stream itself.
 func (m *Multiplexer) OpenStream(ctx context.Context) (*Stream, error) {
-	// Create and register the local side of the stream. If we've already
-	// exhausted local stream identifiers, then we can't open a new stream.
+	// Acquire a write buffer for the open message before allocating a stream
+	// identifier. The remote requires that stream identifiers arrive in
+	// monotonically increasing order, so identifier allocation and the queueing
+	// of the corresponding open message have to happen atomically with respect
+	// to other OpenStream calls (which we ensure below by performing both while
+	// holding the stream lock). If we allocated the identifier first and waited
+	// for a write buffer afterward, then concurrent calls could queue their
+	// open messages out of identifier order.
+	var writeBuffer *messageBuffer
+	select {
+	case writeBuffer = <-m.writeBufferAvailable:
+	case <-ctx.Done():
+		return nil, context.Canceled
+	case <-m.closed:
+		return nil, ErrMultiplexerClosed
+	}
+
+	// Create and register the local side of the stream, then write the open
+	// message and queue it for transmission (which can't block because we hold
+	// one of the write buffers). If we've already exhausted local stream
+	// identifiers, then we can't open a new stream.
 	m.streamLock.Lock()
 	if m.nextOutboundStreamIdentifier == 0 {
 		m.streamLock.Unlock()
+		m.writeBufferAvailable <- writeBuffer
 		return nil, errors.New("local stream identifiers exhausted")
 	}
 	stream := newStream(m, m.nextOutboundStreamIdentifier, m.configuration.StreamReceiveWindow)
@@ -599,29 +619,21 @@ func (m *Multiplexer) OpenStream(ctx context.Context) (*Stream, error) {
 	} else {
 		m.nextOutboundStreamIdentifier += 2
 	}
+	writeBuffer.encodeOpenMessage(stream.identifier, uint64(m.configuration.StreamReceiveWindow))
+	m.writeBufferPending <- writeBuffer
 	m.streamLock.Unlock()
 
 	// If we fail to establish the stream, then defer its closure. We can't use
 	// the stream's established channel to check this because it could be closed
-	// by the reader Goroutine after some other error aborts the opening.
-	var sentOpenMessage, established bool
+	// by the reader Goroutine after some other error aborts the opening. The
+	// open message has been queued at this point, so closure needs to notify
+	// the remote.
+	var established bool
 	defer func() {
 		if !established {
-			stream.close(sentOpenMessage)
+			stream.close(true)
 		}
 	}()
-
-	// Write the open message and queue it for transmission.
-	select {
-	case writeBuffer := <-m.writeBufferAvailable:
-		writeBuffer.encodeOpenMessage(stream.identifier, uint64(m.configuration.StreamReceiveWindow))
-		m.writeBufferPending <- writeBuffer
-		sentOpenMessage = true
-	case <-ctx.Done():
-		return nil, context.Canceled
-	case <-m.closed:
-		return nil, ErrMultiplexerClosed
-	}
 
 	// Wait for stream acceptance or rejection.
 	select {
